@@ -257,19 +257,23 @@ func startHttpServer(c *config.Config, httpServer **http.Server,
 	var basicAuthenticator auth.BasicAuth
 	if c.HtpasswdFile != "" {
 		if c.AllowUnauthenticatedReads {
-			cacheHandler = unauthenticatedReadWrapper(cacheHandler, htpasswdSecrets, c.HTTPAddress)
+			cacheHandler = unauthenticatedReadWrapper(cacheHandler,
+				&auth.BasicAuth{Realm: c.HTTPAddress, Secrets: htpasswdSecrets})
 		} else {
 			basicAuthenticator = auth.BasicAuth{Realm: c.HTTPAddress, Secrets: htpasswdSecrets}
 			cacheHandler = basicAuthWrapper(cacheHandler, &basicAuthenticator)
 		}
 	} else if c.LDAP != nil {
+		ldapCache, ldap_err := ldap.New(c.LDAP)
+		if ldap_err != nil {
+			log.Fatal("Failed to create LDAP connection: ", ldap_err)
+		}
+		ldapAuthenticator = ldapCache
 		if c.AllowUnauthenticatedReads {
-			cacheHandler = unauthenticatedReadWrapper(cacheHandler, htpasswdSecrets, c.HTTPAddress)
+			// Writes are checked against LDAP (there are no htpasswd
+			// secrets in this configuration).
+			cacheHandler = unauthenticatedReadWrapper(cacheHandler, ldapCache)
 		} else {
-			var ldap_err error
-			if ldapAuthenticator, ldap_err = ldap.New(c.LDAP); ldap_err != nil {
-				log.Fatal("Failed to create LDAP connection: ", ldap_err)
-			}
 			cacheHandler = ldapAuthWrapper(cacheHandler, ldapAuthenticator)
 		}
 	}
@@ -485,9 +489,9 @@ func ldapAuthWrapper(handler http.HandlerFunc, authenticator authenticator) http
 // A http.HandlerFunc wrapper which requires successful basic
 // authentication for write requests, but allows unauthenticated
 // read requests.
-func unauthenticatedReadWrapper(handler http.HandlerFunc, secrets auth.SecretProvider, addr string) http.HandlerFunc {
-	authenticator := &auth.BasicAuth{Realm: addr, Secrets: secrets}
-
+func unauthenticatedReadWrapper(handler http.HandlerFunc, authenticator interface {
+	CheckAuth(r *http.Request) string
+}) http.HandlerFunc {
 	return func(w http.ResponseWriter, r *http.Request) {
 		if r.Method == http.MethodGet || r.Method == http.MethodHead {
 			handler(w, r)
